@@ -1,10 +1,10 @@
 (* C11 — a filtered load is the projection of the full load onto the selected families. *)
 From Coq Require Import List Arith Bool String Permutation.
-From PyHam Require Import Tax Ortho Loader Filter.
-From PyHam.proofs Require Import LoaderFacts FilterFacts.
+From PyHam Require Import Tax Ortho Loader Mapper Preds Filter Hist Spell Whole.
+From PyHam.proofs Require Import LoaderFacts FilterFacts WholeFacts FilterSpellFacts.
 Import ListNotations.
 
-(* PARTIAL (see DESIGN.md, C11).  Proved, for all documents whose top-level groups carry ids and
+(* Proved, for all documents whose top-level groups carry ids and
    reference every gene at most once, and all filters:
    (1) the collecting pass selects exactly the families that are named or contain a gene selected
        by internal id or by any attribute value (selected), and the genes it keeps are the directly
@@ -13,9 +13,15 @@ Import ListNotations.
    (3) the filtered load is the load of the projected document, hence (C01 on that document) its
        families are exactly the selected ones, each with exactly the member genes referenced in its
        group - the same members as in the unfiltered load.
-   Not proved: that levels and duplications of a selected family are identical in both loads (the
-   loader treats families independently up to object ids); checked on the implementation by comparing
-   canonical forms of the filtered and the unfiltered load, and tied to the model by correspondence. *)
+   (4) for consistent inputs (WholeFacts.consistent) whose top-level groups carry pairwise different ids: the
+       document the building pass sees is again a consistent input, spelling the histories of exactly the
+       selected families (c11_projection_consistent); hence the filtered load succeeds, each selected family
+       matches the same history as in the unfiltered load - same members, same taxon for every HOG, same
+       duplication grouping -, and the filtered forest satisfies wfbc, so every theorem about comparisons,
+       profiles and navigation holds for the filtered analysis too (c11_same_hierarchy).
+   Unselected families and their genes are absent by (3): the filtered load is the load of the projected
+   document, which does not contain them.  Tied to the code by the filter-layer correspondence and by
+   comparing canonical forms of the filtered and the unfiltered load of the real implementation. *)
 Theorem c11_selection : forall f d,
   Forall is_idd_group (d_groups d) -> NoDup (flat_map refs_of (d_groups d)) ->
   pass1 f d = Ok (direct_genes f d ++ flat_map refs_of (filter (selected f (direct_genes f d)) (d_groups d)),
@@ -39,6 +45,29 @@ Proof.
   apply load_spec in Hl as (H1 & _ & _ & _ & H5). auto.
 Qed.
 Print Assumptions c11_filtered_is_projected.
+
+Theorem c11_projection_consistent : forall t f d hs gsel hsel,
+  consistent t d hs -> Forall is_idd_group (d_groups d) -> NoDup (flat_map group_id (d_groups d)) ->
+  pass1 f d = Ok (gsel, hsel) ->
+  consistent t (project_doc gsel hsel d) (sel_hs (keep hsel) hs (d_groups d)).
+Proof. exact projected_consistent. Qed.
+Print Assumptions c11_projection_consistent.
+
+Theorem c11_same_hierarchy : forall t f d hs gsel hsel,
+  consistent t d hs -> Forall is_idd_group (d_groups d) -> NoDup (flat_map group_id (d_groups d)) ->
+  pass1 f d = Ok (gsel, hsel) ->
+  exists l lf, load t d = Ok l /\ load_filtered t f d = Ok lf /\
+    Forall2 (fun h top => matches h (snd top) /\ htax (snd top) = xtax h /\ wf_node t (snd top) = true) hs (l_tops l) /\
+    Forall2 (fun h top => matches h (snd top) /\ htax (snd top) = xtax h /\ wf_node t (snd top) = true)
+            (sel_hs (keep hsel) hs (d_groups d)) (l_tops lf) /\
+    wfbc t (forest_of lf) = true.
+Proof.
+  intros t f d hs gsel hsel Hc Hidd Hids Hp.
+  destruct (consistent_forest t d hs Hc) as (l & El & _ & Fl).
+  destruct (consistent_forest t _ _ (projected_consistent t f d hs gsel hsel Hc Hidd Hids Hp)) as (lf & Elf & Wf & Ff).
+  exists l, lf. split; [exact El|]. split; [unfold load_filtered; rewrite Hp; exact Elf|]. auto.
+Qed.
+Print Assumptions c11_same_hierarchy.
 
 Local Open Scope string_scope.
 Definition d0 : doc :=
